@@ -86,6 +86,11 @@ func c04Run(c *core.Ctx) {
 			}
 		}
 	}
+	for _, cs := range deepCases(c) {
+		if c.Next() {
+			c04One(c, cs)
+		}
+	}
 	for _, src := range corpus.Specials() {
 		for _, v := range []*version.Version{drive.V74, drive.V72, drive.V56} {
 			if !c.Next() {
